@@ -1151,8 +1151,54 @@ func (in *inliner) expand(s callSite) (eds []textEdit, a, b token.Pos, ok bool) 
 			return []textEdit{{start: in.off(st.Pos()), end: in.off(st.End()), text: txt}}, st.Pos(), st.End(), true
 		}
 	case *ast.IfStmt:
-		if nres != 1 || !containsNode(st.Cond, call) || !leftmost(st.Cond, call) || !in.wrappable(st) {
+		if nres != 1 || !containsNode(st.Cond, call) || !in.wrappable(st) {
 			return nil, 0, 0, false
+		}
+		if !leftmost(st.Cond, call) {
+			// `if a && b && h(x) { body }` (no else) is `if a && b { if h(x) { body } }`: the call becomes
+			// the first thing the inner condition evaluates
+			if st.Else != nil {
+				return nil, 0, 0, false
+			}
+			var conj []ast.Expr
+			var flat func(e ast.Expr)
+			flat = func(e ast.Expr) {
+				if be, ok := ast.Unparen(e).(*ast.BinaryExpr); ok && be.Op == token.LAND {
+					flat(be.X)
+					flat(be.Y)
+					return
+				}
+				conj = append(conj, e)
+			}
+			flat(st.Cond)
+			k := -1
+			for i, c := range conj {
+				if containsNode(c, call) && leftmost(c, call) {
+					k = i
+				}
+			}
+			if k <= 0 {
+				return nil, 0, 0, false
+			}
+			var outer, inner []string
+			for i, c := range conj {
+				t := in.text(c.Pos(), c.End())
+				if i == k {
+					t = in.text(c.Pos(), call.Pos()) + tmp(0) + in.text(call.End(), c.End())
+				}
+				if i < k {
+					outer = append(outer, t)
+				} else {
+					inner = append(inner, t)
+				}
+			}
+			hoist, label := b0.build(modeTemps, tmp)
+			init := ""
+			if st.Init != nil {
+				init = in.text(st.Init.Pos(), st.Init.End()) + "\n"
+			}
+			txt := "{\n" + init + "if " + strings.Join(outer, " && ") + " {\n" + hoist + labelled(label) + "if " + strings.Join(inner, " && ") + " " + in.text(st.Body.Pos(), st.Body.End()) + "\n}\n}"
+			return []textEdit{{start: in.off(st.Pos()), end: in.off(st.End()), text: txt}}, st.Pos(), st.End(), true
 		}
 		hoist, label := b0.build(modeTemps, tmp)
 		init := ""
